@@ -32,7 +32,8 @@ PredsOK(e) ==
   /\ ExtValid(Q)
   /\ e.isid = ExtIsId(Q)
   /\ e.small = ExtIsSmallOrder(Q)
-  /\ Has(e, "tfree") => e.tfree = IsTorsionFree(Q)
+  \* a small-order point is torsion free exactly when it is the identity (no 253-bit multiplication needed for those)
+  /\ Has(e, "tfree") => e.tfree = (IF ExtIsSmallOrder(Q) THEN ExtIsId(Q) ELSE IsTorsionFree(Q))
   /\ e.enc = EncodePointP(Q, Certs(e))
   /\ LET C8 == PtOf(e.c8) IN ExtValid(C8) /\ ExtEq(C8, ExtMulCofactor(Q))
   /\ LET zmy == FSub(Q[3], Q[2]) IN       \* u = (Z+Y)/(Z-Y), identity -> 0
@@ -43,7 +44,8 @@ Mont2EdOK(e) ==
       d == DecompressWithCert(y, e.sign, FB(e.cert))
   IN IF u = FNeg(FOne) THEN ~e.ok
      ELSE /\ e.ok = d[1]
-          /\ e.ok => e.out = EncodePointP(d[2], Certs(e))
+          /\ e.ok => /\ e.out = EncodePointP(d[2], Certs(e))
+                      /\ LET Q == PtOf(e) IN ExtValid(Q) /\ ExtEq(Q, d[2])
 
 EventOK(e) ==
   CASE e.op = "decode" -> DecodeOK(e)
